@@ -6,6 +6,8 @@ import (
 	"encoding/json"
 	"flag"
 	"fmt"
+	"io/ioutil"
+	"log"
 	"math/big"
 	"os"
 	"sort"
@@ -251,6 +253,13 @@ func ResZE(panicked bool, v string, e string) string {
 	return "(Val (" + v + ", " + OptErr(e) + "))"
 }
 
-// Cmds is the sub-command table; per-property packages are registered by the
-// reg_cNN.go files of package main.
-var Cmds = map[string]func(args []string) error{}
+// Main is the entry point shared by the per-property commands
+// (harness/cNN/main.go: `func main() { kit.Main(run) }`): it silences the
+// implementation's logging and maps an error to exit status 1.
+func Main(run func(args []string) error) {
+	log.SetOutput(ioutil.Discard)
+	if err := run(os.Args[1:]); err != nil {
+		fmt.Fprintln(os.Stderr, "harness error:", err)
+		os.Exit(1)
+	}
+}
